@@ -207,7 +207,8 @@ Definition as_polyline (P : list (list T)) (n_pts : Z) (custom : option (list T)
   : res (list (list T) * list T * list (Z * Z)) :=
   let ts := curve_params n_pts custom in
   res_bind (res_seq (map (curve_eval P) ts)) (fun pts =>
-    Ok (somes (map pad3 pts), ts, polyline_edges n_pts (Z.of_nat (length ts)))).
+    let verts := somes (map pad3 pts) in
+    Ok (verts, ts, polyline_edges n_pts (Z.of_nat (length ts)) (Z.of_nat (length verts)))).
 
 (* as_surface(n1, n2): (vertices, uv attribute, faces) *)
 Definition as_surface (rows : list (list (list T))) (n1 n2 : Z)
